@@ -1,0 +1,35 @@
+//go:build verif
+
+package httpsfv
+
+// consumeParameter (RFC 9651 4.2.3.2, "Parsing Parameters"): the values reported to the callback.
+//
+// Ghost variable eq (a counter advanced by `new - ghost(eq)` is an assignment): reset to 0 when
+// the key of a parameter is consumed, set to 1 when a bare item has been consumed after an '=' of
+// that parameter. So at the call of f, eq tells whether the parameter being reported had an
+// explicit value. Call-site assertions at f(key, val) ($0 = key, $1 = val):
+//   - a parameter without '=' is reported with the value "?1" (boolean true, step 7.6 of the
+//     algorithm: "param_value is Boolean true" unless a value follows), whatever parameters came
+//     before it;
+//   - a parameter with '=' is reported with the text consumed by consumeBareItem: a non-empty
+//     string that ends exactly where the unparsed rest begins;
+//   - the key reported is non-empty, lies in s and begins with a key start character.
+// Postconditions as for the other consumeX: consumed = s[:n], rest = s[n:] (structurally) on
+// success; consumed empty and rest as long as s on failure. No panic (no `partial`).
+// The callback is a function value: it is assumed not to interfere (trustcall, listed).
+//
+//@ func consumeParameter(s, f) (consumed, rest, ok)
+//@   trustcall f
+//@   ghost eq += 0 - ghost(eq) at call consumeKey
+//@   ghost eq += 1 - ghost(eq) after call consumeBareItem
+//@   assert at call f: ghost(eq) == 0 || ghost(eq) == 1
+//@   assert at call f: ghost(eq) == 0 ==> $1 == "?1"
+//@   assert at call f: ghost(eq) == 1 ==> len($1) >= 1 && samebase($1, rest) && endoff($1) == startoff(rest)
+//@   assert at call f: len($0) >= 1
+//@   loop 1 invariant len(rest) <= len(s)
+//@   loop 1 invariant samebase(rest, s) && suboff(rest, s) + len(rest) == len(s)
+//@   ensures ok ==> len(consumed) + len(rest) == len(s)
+//@   ensures !ok ==> len(consumed) == 0 && len(rest) == len(s)
+//@   ensures ok ==> samebase(consumed, s) && suboff(consumed, s) == 0
+//@   ensures samebase(rest, s) && suboff(rest, s) == len(consumed)
+//@   assert at call f: samebase($0, s) && rfcKeyStart($0[0])
